@@ -75,7 +75,8 @@ def corruptions(rng, root):
                     if len(el2):
                         el2.remove(el2[-1])
                     else:
-                        dup.set("abstract", "true" if dup.get("abstract") != "true" else "false")
+                        was = (dup.get("abstract") or "false").strip().lower() in ("true", "1")      # xs:boolean
+                        dup.set("abstract", "false" if was else "true")
                 elif kind == "param":
                     dup.set("shortDescription", "changed")
                 else:
@@ -137,7 +138,7 @@ def line_of(root_el, prefix="xtce"):
 
 
 def generate(rng, tier):
-    ndefs = 30 if tier == "quick" else 1500
+    ndefs = 60 if tier == "quick" else 1500
     for _ in range(ndefs):
         d = defgen.Defn(rng, max_depth=rng.choice([1, 2, 3]), fanout=3, adj_pool=c09.ADJ_POOL, rich=True, odd_names=True)
         sp = xmlgen.Spelling("prefix", "xtce", comments=0.0)
@@ -230,10 +231,13 @@ def oracle(line, out):
     # *conflicting* duplicates: two SequenceContainer elements of one name that differ in what they contain (abstract flag,
     # base container, entry list, restriction criteria) — differences in anything else are left to the model
     def signature(c):
+        def xsb(v):
+            return v.strip().lower() in ("true", "1")
+
         def elems_only(e):
-            return [uS(e[2]), sorted((uS(a), uS(v)) for a, v in e[3]), uS(e[4]) if e[4] != "-" else None,
-                    [elems_only(k) for k in e[5] if k[0] == "e"]]
-        ab = (_attr(c, "abstract") or "false").lower() == "true"
+            return [uS(e[2]), sorted((uS(a), xsb(uS(v)) if uS(a) == "useCalibratedValue" else uS(v)) for a, v in e[3]),
+                    uS(e[4]) if e[4] != "-" else None, [elems_only(k) for k in e[5] if k[0] == "e"]]
+        ab = xsb(_attr(c, "abstract") or "false")
         bases = [(_attr(b, "containerRef"), [elems_only(r) for r in _find(b, "RestrictionCriteria")]) for b in _find(c, "BaseContainer")]
         ents = [[(uS(e[2]), _attr(e, "parameterRef") or _attr(e, "containerRef")) for e in el[5] if e[0] == "e"]
                 for el in _find(c, "EntryList")]
